@@ -27,6 +27,7 @@ type Event struct {
 	Site    string        `json:"site"`           // file path, executable, yield site, env name
 	ID      string        `json:"id,omitempty"`   // fan / sensor id for yield sites
 	Actor   uint64        `json:"actor"`          // hash of the call stack (stable goroutine identity)
+	G       uint64        `json:"g,omitempty"`    // goroutine id (groups events of one goroutine within a run; not part of keys or hashes)
 	Flags   Flags         `json:"flags"`          // classification of the call stack
 	NParked int           `json:"np"`             // number of candidates at the decision
 	Val     int           `json:"val,omitempty"`  // value read / written
@@ -234,7 +235,7 @@ func (k *Kernel) Park(ev *Event, eligible func() bool) {
 // NewEvent builds an event for the calling goroutine, classifying its stack.
 func NewEvent(kind, site, id string, skip int) *Event {
 	actor, flags := stackInfo(skip + 1)
-	return &Event{Kind: kind, Site: site, ID: id, Actor: actor, Flags: flags}
+	return &Event{Kind: kind, Site: site, ID: id, Actor: actor, Flags: flags, G: goid()}
 }
 
 var exactFlags = map[string]Flags{
@@ -585,4 +586,20 @@ func DecodeEvent(b []byte) (*Event, error) {
 	}
 	ev.Done = true
 	return ev, nil
+}
+
+// goid parses the current goroutine's id from its stack header.
+func goid() uint64 {
+	var buf [40]byte
+	n := runtime.Stack(buf[:], false)
+	// "goroutine 123 [running]:..."
+	var id uint64
+	for i := len("goroutine "); i < n; i++ {
+		c := buf[i]
+		if c < '0' || c > '9' {
+			break
+		}
+		id = id*10 + uint64(c-'0')
+	}
+	return id
 }
